@@ -16,6 +16,7 @@ import (
 type EffectRule struct {
 	Packages []string `json:"packages"` // import paths relative to the module, e.g. "responsemanager"
 	Forbid   []string `json:"forbid"`   // callee key suffixes, e.g. "responseassembler.ResponseBuilder.SendResponse"
+	ForbidWrites []string `json:"forbid_writes"` // "Type.field": fields no function outside Except may assign (encapsulation of an invariant's state)
 	Except   []string `json:"except"`   // function key suffixes exempt from the rule
 	Why      string   `json:"why"`
 }
@@ -74,6 +75,43 @@ func (e *Engine) effectObligations(rules []EffectRule) []*Obligation {
 					}
 					return true
 				})
+				whits := map[string]string{}
+				if len(r.ForbidWrites) > 0 {
+					note := func(l ast.Expr) {
+						for _, w := range writtenFields(p.TypesInfo, l) {
+							for _, f := range r.ForbidWrites {
+								if w == f {
+									whits[f] = c.pos(l.Pos())
+								}
+							}
+						}
+					}
+					ast.Inspect(fi.Body, func(n ast.Node) bool {
+						if _, isLit := n.(*ast.FuncLit); isLit && n != ast.Node(fi.Lit) {
+							return false
+						}
+						switch y := n.(type) {
+						case *ast.AssignStmt:
+							for _, l := range y.Lhs {
+								note(l)
+							}
+						case *ast.IncDecStmt:
+							note(y.X)
+						}
+						return true
+					})
+				}
+				for _, f := range r.ForbidWrites {
+					o := &Obligation{Name: "effect:no-write(" + f + ")", Fn: k, Kind: "effect", Backend: "ast-scan",
+						Desc: fmt.Sprintf("effect contract: %s never assigns %s (%s)", shortFn(k), f, r.Why), Pos: c.pos(fi.Body.Pos()), Goal: "true", Status: "unsat"}
+					if at, bad := whits[f]; bad {
+						o.Status = "sat"
+						o.Raw = "forbidden write at " + at
+						o.Desc += " — write found at " + at
+						o.Pos = at
+					}
+					out = append(out, o)
+				}
 				for _, f := range r.Forbid {
 					o := &Obligation{Name: "effect:no-call(" + f + ")", Fn: k, Kind: "effect", Backend: "ast-scan",
 						Desc: fmt.Sprintf("effect contract: %s never calls %s (%s)", shortFn(k), f, r.Why), Pos: c.pos(fi.Body.Pos()), Goal: "true", Status: "unsat"}
@@ -91,4 +129,69 @@ func (e *Engine) effectObligations(rules []EffectRule) []*Obligation {
 	return out
 }
 
-var _ = types.Typ
+// writtenFields: the "Type.field" names an assignment to l writes: the last field of a selector path, plus every
+// field before it that is reached without crossing a pointer afterwards (x.a.b = v with a a struct VALUE writes a too).
+func writtenFields(info *types.Info, l ast.Expr) []string {
+	sel, ok := ast.Unparen(l).(*ast.SelectorExpr)
+	if !ok {
+		if ix, ok := ast.Unparen(l).(*ast.IndexExpr); ok {
+			// m[k] = v / s[i] = v on a field: the container field is what changes for slices (maps are references)
+			if _, isMap := info.TypeOf(ix.X).Underlying().(*types.Map); !isMap {
+				return writtenFields(info, ix.X)
+			}
+		}
+		return nil
+	}
+	s, ok := info.Selections[sel]
+	if !ok || s.Kind() != types.FieldVal {
+		return nil
+	}
+	var out []string
+	t := s.Recv()
+	for _, ix := range s.Index() {
+		n, stt, _ := derefNamedStruct(t)
+		if n == nil {
+			break
+		}
+		f := stt.Field(ix)
+		if _, isPtr := f.Type().Underlying().(*types.Pointer); isPtr {
+			out = out[:0] // what comes after is written through this pointer; the pointer field itself is not
+			out = append(out, n.Obj().Name()+"."+f.Name())
+			t = f.Type()
+			continue
+		}
+		out = append(out, n.Obj().Name()+"."+f.Name())
+		t = f.Type()
+	}
+	// the pointer field that was crossed last is only READ unless it is the final field
+	idx := s.Index()
+	if len(out) > 1 {
+		n0, stt0, _ := derefNamedStruct(s.Recv())
+		_ = n0
+		_ = stt0
+	}
+	_ = idx
+	return trimCrossed(info, s, out)
+}
+
+// trimCrossed drops a leading pointer field that was only dereferenced (x.p.f = v writes f, not p).
+func trimCrossed(info *types.Info, s *types.Selection, out []string) []string {
+	t := s.Recv()
+	idx := s.Index()
+	var res []string
+	for i, ix := range idx {
+		n, stt, _ := derefNamedStruct(t)
+		if n == nil {
+			break
+		}
+		f := stt.Field(ix)
+		_, isPtr := f.Type().Underlying().(*types.Pointer)
+		if isPtr && i < len(idx)-1 {
+			res = res[:0] // crossed: later fields live in another object
+		} else {
+			res = append(res, n.Obj().Name()+"."+f.Name())
+		}
+		t = f.Type()
+	}
+	return res
+}
